@@ -67,9 +67,16 @@ def takagi(matrix, connector, atol=1e-12):
         diags = np.diag(D)
 
         # NOTE: It is not mentioned in the cited paper, but it does matter which square
-        # root you take here. If the square root is not the "canonical" one, the
-        # decomposition might not yield the original matrix.
-        angles_mod = np.mod(np.angle(diags), 2 * np.pi)  # phases in [0, 2\pi)
+        # root you take here: eigenvalues which are equal up to floating point errors
+        # must get the same square root, otherwise the square root is not a function
+        # of `Z`, and the decomposition does not yield the original matrix. Hence, the
+        # branch cut is placed in the middle of the largest gap between the phases of
+        # the eigenvalues, so that no cluster of eigenvalues is split by it.
+        angles = np.sort(np.angle(diags))
+        gaps = np.concatenate([angles[1:], angles[:1] + 2 * np.pi]) - angles
+        largest_gap_index = np.argmax(gaps)
+        branch_cut = angles[largest_gap_index] + gaps[largest_gap_index] / 2
+        angles_mod = np.mod(np.angle(diags) - branch_cut, 2 * np.pi) + branch_cut
         sqrt_diags = np.sqrt(np.abs(diags)) * np.exp(1j * angles_mod / 2)
 
         sqrt_Z = Q @ np.diag(sqrt_diags) @ np.conj(Q).T
